@@ -28,6 +28,7 @@ def validate_graph(
     nx_graph: nx.DiGraph,
     graph_name: str | None,
     strict_types: bool,
+    explicit_edges: bool = False,
 ) -> None:
     """Run all build-time validations on a graph.
 
@@ -49,7 +50,7 @@ def validate_graph(
     _validate_no_cache_on_non_function_nodes(nodes)
     _validate_wait_for_references(nodes)
     if strict_types:
-        _validate_types(nodes, nx_graph)
+        _validate_types(nodes, nx_graph, explicit_edges=explicit_edges)
 
 
 def _validate_graph_name(graph_name: str | None) -> None:
@@ -222,7 +223,7 @@ def _values_equal(a: Any, b: Any) -> bool:
         return False
 
 
-def _validate_types(nodes: dict[str, HyperNode], nx_graph: nx.DiGraph) -> None:
+def _validate_types(nodes: dict[str, HyperNode], nx_graph: nx.DiGraph, *, explicit_edges: bool = False) -> None:
     """Validate type compatibility between connected nodes.
 
     Checks each edge (source_node -> target_node) for:
@@ -231,17 +232,25 @@ def _validate_types(nodes: dict[str, HyperNode], nx_graph: nx.DiGraph) -> None:
 
     Only called when strict_types=True.
     """
-    for source_name, target_name, edge_data in nx_graph.edges(data=True):
+    # With inferred edges, every producer of a name feeds its consumers at run
+    # time, but the graph records a data edge from the first producer only.
+    producers_of: dict[str, list[str]] = defaultdict(list)
+    if not explicit_edges:
+        for node in nodes.values():
+            for output in node.outputs:
+                producers_of[output].append(node.name)
+
+    for edge_source, target_name, edge_data in nx_graph.edges(data=True):
         if edge_data.get("edge_type") != "data":
             continue  # ordering (emit/wait_for) and control edges carry no values
         value_names = edge_data.get("value_names")
         if not value_names:
             continue
 
-        source_node = nodes[source_name]
         target_node = nodes[target_name]
 
-        for value_name in value_names:
+        for value_name, source_name in ((v, p) for v in value_names for p in (producers_of.get(v) or [edge_source])):
+            source_node = nodes[source_name]
             # Get types using universal capability methods
             output_type = source_node.get_output_type(value_name)
             input_type = target_node.get_input_type(value_name)
